@@ -95,7 +95,7 @@ def gen_env(rng, idx, n_envs):
         "umask": rng.choice([0o022, 0o077, 0o002]),
         "noise": {f"NOISE_{rng.randrange(1000)}": str(rng.random()) for _ in range(rng.randint(0, 3))},
         "clock": float(rng.choice([946684800, 1600000000, 1893456000, 2000000001]) + rng.randrange(86400)),
-        "reuse": rng.choice([None, None, "A,B,A", "B,A", "cd:B,A", "F,A"]),  # process reuse pattern (cd: both by RELATIVE option paths)
+        "reuse": rng.choice([None, None, "A,B,A", "B,A", "cd:B,A", "F,A", "P,A"]),  # process reuse pattern (cd: both by RELATIVE option paths)
     }
 
 
@@ -142,6 +142,10 @@ def launch(base, env, tag, other_base=None):
         od = os.path.join(other_base, "files")
         args += ["--cd", od, os.path.join(od, "req_rel.bin"), os.path.join(base, f"other_{tag}.bin"),
                  "--cd", d, os.path.join(d, "req_rel.bin"), out]
+    elif reuse == "P,A":
+        # fault: pandoc dies during the FIRST generation of this very request (that generation fails); the second one,
+        # in the same interpreter with pandoc back, must produce the bytes a fresh process produces
+        args += ["--pandoc-fail-gen", "0", req, os.path.join(base, f"other_{tag}.bin"), req, out]
     elif reuse and other_base:
         od = os.path.join(other_base, "files")
         oreq = os.path.join(od, "req_abs.bin")
@@ -422,6 +426,9 @@ def main(argv):
             er = R.stream(seed, "c10", "env", i)
             envs = [gen_env(er, j, nenv) for j in range(nenv)]
             for env in envs:
+                if env["reuse"] == "P,A":
+                    stats["pandoc_failure_first_runs"] = stats.get("pandoc_failure_first_runs", 0) + 1
+                    continue
                 if env["reuse"] == "F,A":
                     # fault: an earlier generation of (nearly) the same request FAILED in this interpreter - its method
                     # settings name a method that does not exist - and may have left half-built state behind
@@ -563,7 +570,7 @@ def main(argv):
                   "process_reuse_runs": stats["reuse_runs"], "stdin_runs": stats["stdin_runs"],
                   "build_worker_generations": stats.get("worker_generations", 0),
                   "relative_option_path_runs": stats["relative_option_paths"], "distinct_clock_instants": len(stats["clock_instants"]),
-                  "faults_fired": {"hash_seed_change": stats["processes"], "process_reuse": stats["reuse_runs"], "process_reuse_same_api_edited_options": stats.get("twin_reuse_runs", 0), "process_reuse_after_failed_generation": stats.get("failed_generation_first_runs", 0),
+                  "faults_fired": {"hash_seed_change": stats["processes"], "process_reuse": stats["reuse_runs"], "process_reuse_same_api_edited_options": stats.get("twin_reuse_runs", 0), "process_reuse_after_failed_generation": stats.get("failed_generation_first_runs", 0), "process_reuse_after_pandoc_failure": stats.get("pandoc_failure_first_runs", 0),
                                    "cwd_change": stats["processes"], "env_noise": stats["processes"], "fake_wall_clock": stats["processes"]},
                   "processes_per_hour": int(stats["processes"] / wall * 3600) if wall else 0,
                   "components_real": ["gapic.cli.generate.generate (real CLI entry point), whole generator, both option files, in separate interpreter processes"],
